@@ -212,3 +212,27 @@ package utils
 //@ func (error).Error
 //@ trusted "formatting an error writes no program state"
 //@ pure
+
+// ---- calls that write no modelled program state (mutex words and file-system state are not modelled) ----
+//@ effectfree \(\*sync\.RWMutex\)\..* \(\*sync\.Mutex\)\..* \(\*sync\.WaitGroup\)\.(Add|Wait) os\.Stat os\.IsNotExist os\.ReadFile os\.ReadDir \(\*os\.File\)\.Close sync/atomic\..*
+
+// ---- ghost write state of files (used by the WAL contracts; file contents written are not modelled) ----
+// walDirty: something was written to a file since the last successful Sync. walWrites: number of Write calls.
+//@ ghost var walDirty bool
+//@ ghost var walWrites int
+
+//@ func (*os.File).Write
+//@ trusted "ghost file model: a write makes the file dirty until the next successful Sync"
+//@ modifies ghost:walDirty ghost:walWrites
+//@ ensures #dirty: walDirty && walWrites == old(walWrites) + 1
+//@ ensures #n: err == nil ==> n == len(b)
+
+//@ func (*os.File).Sync
+//@ trusted "ghost file model: a successful fsync makes everything written so far durable"
+//@ modifies ghost:walDirty
+//@ ensures #clean: err == nil ==> !walDirty
+//@ ensures #failed: err != nil ==> walDirty == old(walDirty)
+
+// ---- pure parsing / formatting helpers of the repository (no writes to caller-visible memory) ----
+//@ effectfree strings\..* regexp\..* \(\*regexp\.Regexp\)\..* @/utils\.TimeframeFromString @/utils\.CandleDurationFromString @/utils/io\.EnumRecordTypeByName @/utils/io\.EnumElementTypeFromName @/utils/io\.TypeStrToElemType \(\*@/utils/io\.TimeBucketKey\)\.(GetTimeFrame|GetItemInCategory|GetMultiItemInCategory|GetCatKey|GetItemKey|String) @/utils/io\.NewTimeBucketKey @/utils/io\.NewTimeBucketKeyFromString
+//@ effectfree \(\*@/utils/io\.ColumnSeries\)\.(GetDataShapes|GetTime|GetEpoch|Len|GetColumn|GetColumnNames) @/utils/io\.GetElementType time\.Since
